@@ -21,7 +21,8 @@ CONSTANTS
   WantOther,    \* BOOLEAN: make a second presentation `other`
   AdvMoves,     \* set of enabled adversary move names
   Forged,       \* set of forged / garbage disclosure descriptors
-  AdvKeys,      \* keys the adversary signs with  (subset of DOMAIN KeyFam)
+  AdvKeys,      \* keys the adversary owns and signs with (never returned by a resolver of VerifyArgs)
+  KBResignKeys, \* keys used to re-sign a KB-JWT: adversary keys and, to model a confused verifier, the issuer key
   MaxAdv,
   MaxDiscs,     \* bound on the length of cur.discs
   VerifyArgs,   \* set of [res, aud, nonce]; res = [kind|->"const", key] or [kind|->"byiss", map]
@@ -34,8 +35,8 @@ vars == <<plan, creds, ledger, cur, other, ghost, obs, nAdv, ph, hist>>
 NoMsg == [t |-> "nomsg"]
 JwkOf(k) == JStr("jwk:" \o k)
 Jwks == {[key |-> k, jwk |-> JwkOf(k)] : k \in DOMAIN KeyFam}
-MkJwt(hdr, pl, sig) == [id |-> ToString(<<hdr, pl, sig>>), hdr |-> hdr, pl |-> pl, sig |-> sig]
-SdHashSym(jwt, ds) == ToString(<<"sdh", jwt.id, Ids(ds)>>)
+MkJwt(hdr, pl, sig) == [id |-> <<hdr, pl, sig>>, hdr |-> hdr, pl |-> pl, sig |-> sig]
+SdHashSym(jwt, ds) == <<"sdh", jwt.id, Ids(ds)>>
 MkMsg(jwt, ds, kb, tm) == [jwt |-> jwt, discs |-> ds, kb |-> kb, sdh |-> SdHashSym(jwt, ds), tm |-> tm]
 Wire(d) == [id |-> d.id, dg |-> d.dg, dec |-> d.dec]          \* a disclosure as it travels (ghost path dropped)
 WireSeq(S) == LET s == SetToSeq(S) IN [i \in DOMAIN s |-> Wire(s[i])]
@@ -112,7 +113,7 @@ AlterDec(dec, what) ==
 Pool ==
   UNION {{[k |-> "gen", c |-> c, path |-> d.path, d |-> Wire(d)] : d \in creds[c].discs} : c \in DOMAIN creds}
   \cup UNION {{[k |-> "alt", c |-> c, path |-> d.path, w |-> w, d |-> Wire(MkDisc(AlterDec(d.dec, w), "adv"))] : d \in creds[c].discs, w \in {"salt", "name", "value"}} : c \in DOMAIN creds}
-  \cup {[k |-> "forged", f |-> f, d |-> IF f.dec = NONE THEN [id |-> f.id, dg |-> Dg(f.id), dec |-> NONE] ELSE Wire(MkDisc(f.dec, "adv"))] : f \in Forged}
+  \cup {[k |-> "forged", f |-> f, d |-> IF f.dec = NONE THEN [id |-> [garbage |-> f.id], dg |-> Dg([garbage |-> f.id]), dec |-> NONE] ELSE Wire(MkDisc(f.dec, "adv"))] : f \in Forged}
 Move(name) == name \in AdvMoves /\ ph = "adv" /\ nAdv < MaxAdv
 Rewrite(m, h) == /\ cur' = m /\ nAdv' = nAdv + 1 /\ hist' = Append(hist, h) /\ ph' = ph
                  /\ UNCHANGED <<plan, creds, other, ghost, obs>>
@@ -146,7 +147,7 @@ KBVariant(kb, w, sdhNow) ==
     [] w = "aud-absent" -> [h |-> kb.hdr, p |-> Without(kb.pl, {"aud"})]
     [] w = "aud-other" -> [h |-> kb.hdr, p |-> With(kb.pl, "aud", JStr("aud-adv"))]
     [] w = "sdh-absent" -> [h |-> kb.hdr, p |-> Without(kb.pl, {"sd_hash"})]
-    [] w = "sdh-other" -> [h |-> kb.hdr, p |-> With(kb.pl, "sd_hash", JStr("wrong"))]
+    [] w = "sdh-other" -> [h |-> kb.hdr, p |-> With(kb.pl, "sd_hash", JStr(<<"sdh", "wrong">>))]
     [] w = "sdh-fix" -> [h |-> kb.hdr, p |-> With(kb.pl, "sd_hash", JStr(sdhNow))]
     [] w = "same" -> [h |-> kb.hdr, p |-> kb.pl]
 KBWhats == {"typ-absent", "typ-other", "nonce-absent", "nonce-other", "aud-absent", "aud-other", "sdh-absent", "sdh-other", "sdh-fix", "same"}
@@ -158,7 +159,7 @@ AdvAlterKB == Move("AlterKB") /\ cur.kb # NoKB /\ \E w \in KBWhats \ {"same"} :
 AdvAlterKBSig == Move("AlterKB") /\ cur.kb # NoKB
                  /\ Rewrite(ReMsg(cur.jwt, cur.discs, MkJwt(cur.kb.hdr, cur.kb.pl, "badsig")), [a |-> "AlterKB", w |-> "sig"]) /\ UNCHANGED ledger
 \* re-signed (possibly after a change) with a key the adversary holds, optionally with another algorithm
-AdvResignKB == Move("ResignKB") /\ cur.kb # NoKB /\ \E w \in KBWhats, k \in AdvKeys, alg \in {"ES256", "EdDSA", "HS256"} :
+AdvResignKB == Move("ResignKB") /\ cur.kb # NoKB /\ \E w \in KBWhats, k \in KBResignKeys, alg \in {"ES256", "EdDSA", "HS256"} :
                  LET v == KBVariant(cur.kb, w, cur.sdh)
                      kb2 == MkJwt(With(v.h, "alg", JStr(alg)), v.p, "advsig:" \o k)
                  IN /\ AlgFam(alg) = KeyFam[k]
@@ -177,7 +178,7 @@ AdvForgeKB == Move("ForgeKB") /\ cur.kb = NoKB /\ \E k \in AdvKeys, va \in Verif
 AdvAlterJwt == Move("AlterJwt") /\ \E w \in {"p-add", "p-digest", "p-iss", "s", "h-typ"} :
                  LET j == cur.jwt
                      j2 == CASE w = "p-add" -> MkJwt(j.hdr, With(j.pl, "evil", JStr("x")), j.sig)
-                             [] w = "p-digest" -> MkJwt(j.hdr, IF Has(j.pl, "_sd") THEN With(j.pl, "_sd", JArr(<<>>)) ELSE With(j.pl, "_sd", JArr(<<JStr("H:adv")>>)), j.sig)
+                             [] w = "p-digest" -> MkJwt(j.hdr, IF Has(j.pl, "_sd") THEN With(j.pl, "_sd", JArr(<<>>)) ELSE With(j.pl, "_sd", JArr(<<JStr(Dg([adv |-> "digest"]))>>)), j.sig)
                              [] w = "p-iss" -> MkJwt(j.hdr, With(j.pl, "iss", JStr("iss-adv")), j.sig)
                              [] w = "s" -> MkJwt(j.hdr, j.pl, "badsig")
                              [] w = "h-typ" -> MkJwt(With(j.hdr, "typ", JStr("x")), j.pl, j.sig)
@@ -247,7 +248,7 @@ Inv_C01 == \A i \in DOMAIN obs : LET o == obs[i] IN HonestObs(o) =>
              /\ o.r.claims = Cnf(ghost.c, View(creds[ghost.c].at, ghost.sel))
 \* C02: acceptance implies the issuer-signed JWT is, as text, one that Issue produced under the resolver's key
 Inv_C02 == \A i \in DOMAIN obs : LET o == obs[i] IN Accepted(o) =>
-             \E c \in CredOf(o.m.jwt.id) : creds[c].key = o.rk /\ AlgFam(creds[c].alg) = KeyFam[o.rk] /\ o.rk \notin AdvKeys
+             \E c \in CredOf(o.m.jwt.id) : creds[c].key = o.rk /\ AlgFam(creds[c].alg) = KeyFam[o.rk]
 \* C03: the claims are those of the genuine disclosures among the presented ones, whatever else is in the list
 Inv_C03 == \A i \in DOMAIN obs : LET o == obs[i] IN Accepted(o) =>
              \A c \in CredOf(o.m.jwt.id) :
